@@ -11,7 +11,9 @@ grammar makes of it.  What a change to /repo does to that grammar then shows as 
 """
 import copy
 import sqlite3
+import threading
 
+_LOCK = threading.Lock()        # the model drivers are fed from several threads (diff_engine.run_model_many)
 _CON = None
 _CACHE = {}
 _MAX = 20000
@@ -20,7 +22,7 @@ _MAX = 20000
 def _con():
     global _CON
     if _CON is None:
-        _CON = sqlite3.connect(":memory:")
+        _CON = sqlite3.connect(":memory:", check_same_thread=False)
         _CON.execute("create table t(x INTEGER PRIMARY KEY)")
         _CON.executemany("insert into t values(?)", [(i,) for i in range(0, _MAX)])
     return _CON
@@ -34,10 +36,8 @@ def canon(s):
         if s.isascii() and s.isdigit() and (s == "0" or not s.startswith("0")):
             c = s
         else:
-            try:
+            with _LOCK:
                 rows = _con().execute("select x from t where x = ?", (s,)).fetchall()
-            except Exception:
-                rows = []
             c = str(rows[0][0]) if len(rows) == 1 else s
         if len(_CACHE) < 100000:
             _CACHE[s] = c
